@@ -534,10 +534,10 @@ def work_pairs(arg):
     Q, SUB, heavy = queries(tier)
     allq = dict(Q)
     allq.update(heavy)
-    out = {'ev': 0, 'viol': [], 'impure': []}
+    out = {'ev': 0, 'viol': [], 'impure': [], 'rewritten': []}
     for second in names2:
         w = fresh_world()
-        o1, _ = outcome(allq[first], w)
+        o1, raw1 = outcome(allq[first], w)
         s1 = snapshot(w)
         if s1 != base_snap:
             out['impure'].append((first, [a for a, b in zip(s1, base_snap) if a != b][:2], [b for a, b in zip(s1, base_snap) if a != b][:2]))
@@ -546,6 +546,11 @@ def work_pairs(arg):
         out['ev'] += 1
         if o2 != base[second][0]:
             out['viol'].append((first, second, base[second][1], raw2.brief()))
+        # the result of the first query belongs to the caller: the second query has not written into it
+        if raw1.ok and o1.startswith('val:'):
+            again = core.call(lambda: 'val:' + hashlib.md5(vdigest(raw1.value).encode()).hexdigest()[:16])
+            if not again.ok or again.value != o1:
+                out['rewritten'].append((first, second))
     return out
 
 
@@ -650,6 +655,9 @@ def run(ctx):
                 {'check': 'history-dependent-outcome', 'query': qclass(second), 'after': qclass(first)},
                 f'{second} after {first}: {got} but as first call on a fresh isotherm: {want}',
                 {'history': [first], 'query': second}, want, got))
+        for first, second in r.get('rewritten', []):
+            ctx.violate(core.make_violation({'check': 'earlier-result-rewritten', 'query': qclass(first), 'by': qclass(second)},
+                                            f'the result returned by {first} was rewritten by the later query {second}', {'history': [first], 'query': second}))
         for first, a, b in r['impure']:
             ctx.violate(core.make_violation({'check': 'impure-query', 'query': qclass(first)},
                                             f'{first} changes the observable content of an object passed to it', {'query': first}, b, a))
